@@ -8,11 +8,36 @@ HOOK_COMMITS = subprocess.run(["git", "-C", "/repo", "log", "--format=%h %s", "-
 
 # property -> (engine, level, technique, text, note, design_ref, has_thorough)
 CHECKS = {
+    "C01": ("E1-small-scope", "exploration",
+            "exhaustive small-scope enumeration (query corpus x databases x engines x statistics), differential oracle optimizer off vs on",
+            "Every query of a fixed, simplest-first corpus is executed on every database instance, engine and statistics assignment with the optimizer disabled and enabled; the two answers must agree. The enumeration is complete for the stated corpus and data domain; it is a bounded forall, not a proof.",
+            "Bounded: qgen corpus (~600 quick / ~1000 thorough queries), <=5-row tables over {NULL,0..4}; unoptimised plan is the reference; queries whose unoptimised plan cannot run are not comparable (counted as skipped). Per-rule e-class checking (E5) is reported separately when built.",
+            "DESIGN.md §4 C01"),
+    "C02": ("E1-small-scope", "exploration",
+            "exhaustive small-scope enumeration (query corpus x databases x engines) against an independent reference implementation (SQLite)",
+            "Every corpus query in the SQLite-compatible subset is executed on every database instance on both engines and compared (multiset / key sequence) with SQLite 3.40 on identical data.",
+            "Bounded as C01; trusts SQLite on the subset listed in checks/dialect.md.",
+            "DESIGN.md §4 C02"),
+    "C03": ("E2-history-explorer", "model_checking",
+            "bounded exhaustive exploration of DDL/DML/reopen histories on the real disk engine, compared step by step with a plain reference model",
+            "All model-valid operation sequences up to the depth bound from two start states are executed on the real engine with reopen cycles; after every reopen tables (rows + definitions) must equal the model and a post-reopen script must succeed.",
+            "Bounded: depth 4 (quick) / 5 (thorough); two tables; views/indexes/functions need not survive but must not break reopening; single session.",
+            "DESIGN.md §4 C03"),
+    "C05": ("E2-history-explorer", "model_checking",
+            "bounded exhaustive lock-step differential exploration of statement histories, memory engine vs disk engine layouts",
+            "Every statement history up to the depth bound followed by a fixed query battery is executed on the memory engine and on each disk layout; outcome classes and results must agree statement by statement.",
+            "Bounded: depth 3 (quick) / 4 (thorough), 3 table kinds, 2-5 disk layouts; error classes compared, not messages.",
+            "DESIGN.md §4 C05"),
+    "C07": ("E2-history-explorer", "model_checking",
+            "bounded exhaustive exploration of insert/delete/compact/reopen histories on the real engine vs a plain multiset model, checked after every step",
+            "All operation sequences of the depth bound over overlapping insert batches, predicate deletes, forced compaction and reopen are executed; after every step the table must equal the model, DML counts must match, and the final ordered scan must be sorted.",
+            "Bounded: depth 4 (quick) / 5 (thorough); one table (pk / no pk); compaction driven through the real compactor by a paused clock.",
+            "DESIGN.md §4 C07"),
     "C12": ("E2-history-explorer", "model_checking",
             "bounded exhaustive history exploration on the real engine (all op sequences up to depth d x all ORDER BY/LIMIT/OFFSET queries), relational oracle",
             "Every population history up to the depth bound, on every engine/layout of the configuration list, is executed on the real engine and every ORDER BY/LIMIT/OFFSET query of the small query space is judged by the relations the property states (permutation, sortedness, slice, count, membership). Complete within the stated bounds; nothing is sampled.",
             "Bounded: histories <= 3 (quick) / 4 (thorough) ops over 3 insert batches, 2 deletes, forced compaction; 2-column integer table; NULL-smallest ordering assumed; single session.",
-            "DESIGN.md §4 C12", True),
+            "DESIGN.md §4 C12"),
 }
 NOT_YET = {}
 ALL = [f"C{i:02d}" for i in range(1, 21)]
@@ -23,7 +48,7 @@ def main():
     for pid in ALL:
         if pid not in CHECKS:
             continue
-        eng, level, tech, text, note, ref, thorough = CHECKS[pid]
+        eng, level, tech, text, note, ref = CHECKS[pid]; thorough = True
         c = {
             "property_id": pid,
             "quick_cmd": f"./check {pid} --tier quick",
